@@ -208,15 +208,18 @@ CHECKS.update({
         technique="Coq proof (round trip by induction on class nesting and type) + model composition evaluated on the cases + metamorphic round trips",
         design_ref="DESIGN.md §4 C05"),
     "C07": dict(
-        text="Every serialize output is validated with jsonschema against serialization_schema generated under the same global "
-             "settings (exclude_defaults / exclude_none set in settings.serialization, aliaser, additional_properties), on the "
-             "C04 universes and well-typed, constraint-satisfying values; the Coq validator model jvalid is compared with "
-             "jsonschema on the same (schema, output) pairs; Coq theorem: the merged union schema accepts whatever one "
-             "alternative's schema accepts (C07_union_schema_accepts_each_alternative). Partial: the serialization schema "
-             "builder is not modelled, so the property itself is explored, not proved.",
+        text="Coq theorem C07_object_free_output_validates: for every universe, options and well-typed value of an object-free type "
+             "(primitives, List, Tuple, Dict[str, X], Literal, Enum, unions with disjoint JSON classes), the serialization "
+             "specification produces JSON that validates, under standard semantics, against the schema the builder model generates "
+             "for the type - the composition of the C05 round-trip theorem with the C06 agreement theorem; the run checks on every "
+             "object-free case within its (executable) hypotheses that serialization_schema is structurally that model schema and "
+             "re-evaluates the conclusion. Partial: for classes (required / skippable fields, serialized methods, exclude_* "
+             "settings) the serialization schema builder is not modelled: every serialize output is validated with jsonschema "
+             "against serialization_schema generated under the same global settings, on the C04 universes and well-typed, "
+             "constraint-satisfying values, and the Coq validator model jvalid is compared with jsonschema on the same pairs; "
+             "C07_union_schema_accepts_each_alternative for merged union schemas.",
         note=SCHEMA_NOTE + " The oracle for validity is jsonschema (Draft 2020-12).",
-        category="exploration",
-        technique="differential exploration with a jsonschema oracle + Coq validator correspondence + union-schema lemma",
+        technique="Coq proof on the object-free fragment (round trip + schema agreement) + jsonschema-oracle correspondence for classes",
         design_ref="DESIGN.md §4 C07"),
     "C11": dict(
         text="Coq model of the external name (alias metadata, class aliaser with override=False exemptions, dynamic aliaser; "
